@@ -582,6 +582,33 @@ func runC01(c *Ctx) {
 			}
 		}
 	}
+	// issuers that are well-formed nkeys (valid prefix byte and CRC16) carrying a key that is not 32 bytes: there is no
+	// Ed25519 key under which anything is a valid signature, so no decoder may return claims (the third segment is a
+	// real signature by another key, or 64 zero bytes)
+	for _, kind := range kindNames {
+		s := kr.by[signerFor[kind]]
+		for ki, iss := range keyShapedStrings {
+			if !c.thorough() && (ki+len(kind))%3 != 0 {
+				continue
+			}
+			for _, layout := range []string{"v1", "v2"} {
+				placement, hdr := "nats", hdrV2
+				var ver interface{} = 2
+				if layout == "v1" {
+					placement, hdr, ver = "top", hdrV1, nil
+				}
+				ft := forge(hdr, payload(kind, placement, ver, iss, s.pub), layout, s)
+				ft.Note = fmt.Sprintf("%s, issuer is a well-formed nkey of %d characters, signed %s by another key", kind, len(iss), layout)
+				processToken(c, w, ft)
+				seg := strings.Split(ft.Token, ".")
+				ft.Token = seg[0] + "." + seg[1] + "." + b64.EncodeToString(make([]byte, 64))
+				ft.Note = fmt.Sprintf("%s, issuer is a well-formed nkey of %d characters, zero signature", kind, len(iss))
+				_, o := processToken(c, w, ft)
+				distinct[fmt.Sprint("shortiss", kind, len(iss), layout, o.Accepted)] = true
+				c.count("issuer_wrong_length_key")
+			}
+		}
+	}
 	names := make([]string, 0, len(all))
 	for k := range all {
 		names = append(names, k)
